@@ -15,7 +15,7 @@ use std::collections::HashMap;
 use std::sync::Arc;
 
 pub const SPEC: Spec = Spec {
-    rule: "a 1->1 program IR (an expression of a drawn arrow A->B wrapped as comp (comp const e) unit), Core or Elements jet family, 4..150 nodes, all combinator kinds, sharing probability swept 0..0.6. (a) commit time: disconnect without branch, witness/disconnect-bearing sub-expressions never shared; construct -> finalize_types -> to_vec_without_witness -> CommitNode::decode. (b) redemption time: witnesses generated for the inferred types; finalize_unpruned (and prune, when the Core program runs) -> to_vec_with_witness -> RedeemNode::decode. Oracle (round-trip): MaxSharing post-order walks of original and decoded program agree element-wise in combinator, payload, child indices, cmr, arrow, ihr/amr where defined and witness bits; re-encoding reproduces the bytes. Non-trivial: >= 8 encoded nodes and at least one of {in-degree >= 2, non-empty witness value, hidden branch, disconnect, duplicates merged by the encoder}. Distinct by (program bytes, witness bytes).",
+    rule: "a 1->1 program IR (an expression of a drawn arrow A->B wrapped as comp (comp const e) unit), Core or Elements jet family, 4..150 nodes, all combinator kinds, sharing probability swept 0..0.6. (a) commit time: disconnect without branch, witness/disconnect-bearing sub-expressions never shared; construct -> finalize_types -> to_vec_without_witness -> CommitNode::decode. (b) redemption time: witnesses generated for the inferred types; finalize_unpruned (and prune, when the Core program runs) -> to_vec_with_witness -> RedeemNode::decode. Oracle (round-trip): MaxSharing post-order walks of original and decoded program agree element-wise in combinator, payload, child indices, cmr, arrow, ihr/amr where defined and witness bits; re-encoding reproduces the bytes. (c) 0.8% of the cases: sizes the type-directed generator does not reach - constant words of 2^10..2^13 bits, and programs of 10 000..18 000 encoded nodes (balanced pair tree over distinct 32-bit words) - through both round trips. Non-trivial: >= 8 encoded nodes and at least one of {in-degree >= 2, non-empty witness value, hidden branch, disconnect, duplicates merged by the encoder}. Distinct by (program bytes, witness bytes).",
     design_ref: "§6 C01",
     max_len: 1500,
     quick_cases: 40_000,
@@ -209,7 +209,92 @@ fn roundtrip_redeem(cx: &mut Case, what: &str, family: Family, redeem: &Arc<Rede
     Ok((pb, wb, wa.len()))
 }
 
+/// Sizes that the type-directed generator never reaches: constant words wider than the widest
+/// word constructor (2^10 .. 2^13 bits) and programs of more than ten thousand encoded nodes (a
+/// balanced tree of pairs over distinct 32-bit words, depth 14).  Both round trips.
+fn large_program(cx: &mut Case) -> CaseResult {
+    let family = if cx.src.bool() { Family::Core } else { Family::Elements };
+    let mut nodes: Vec<Ir> = vec![];
+    let body = if cx.src.bool() {
+        cx.label("mode: constant word wider than 512 bits");
+        let k = 1 + cx.src.below(3);
+        let mut ids = vec![];
+        for _ in 0..k {
+            let n = 10 + cx.src.below(4);
+            let fill = cx.src.u8();
+            let bits: Vec<bool> = (0..(1usize << n)).map(|i| if i < 64 { cx.src.bool() } else { (fill >> (i % 8)) & 1 == 1 }).collect();
+            nodes.push(Ir::Word(n, bits));
+            ids.push(nodes.len() - 1);
+        }
+        let mut acc = ids[0];
+        for id in &ids[1..] {
+            nodes.push(Ir::Pair(acc, *id));
+            acc = nodes.len() - 1;
+        }
+        acc
+    } else {
+        cx.label("mode: more than 10000 encoded nodes");
+        let leaves = 5001 + cx.src.below(4000);
+        let salt = cx.src.u16() as u32;
+        let mut layer: Vec<usize> = (0..leaves as u32)
+            .map(|i| {
+                let v = i.wrapping_mul(0x9e37_79b9).wrapping_add(salt) ^ (i << 7);
+                nodes.push(Ir::Word(5, (0..32).map(|b| (v >> (31 - b)) & 1 == 1).collect()));
+                nodes.len() - 1
+            })
+            .collect();
+        while layer.len() > 1 {
+            let mut next = vec![];
+            for pair in layer.chunks(2) {
+                if pair.len() == 2 {
+                    nodes.push(Ir::Pair(pair[0], pair[1]));
+                    next.push(nodes.len() - 1);
+                } else {
+                    next.push(pair[0]);
+                }
+            }
+            layer = next;
+        }
+        layer[0]
+    };
+    nodes.push(Ir::Unit);
+    let u = nodes.len() - 1;
+    nodes.push(Ir::Comp(body, u));
+    let root = nodes.len() - 1;
+    let prog = Prog { nodes, root, family };
+    cx.nontrivial = true;
+    // commit time
+    let typed = type_check(&prog, true).map_err(|e| harness_error(format!("large program rejected: {:?}", e)))?;
+    let commit = typed.commit.clone();
+    let bytes = commit.to_vec_without_witness();
+    cx.fp.write(&bytes);
+    let n_nodes = walk_commit(&commit).len();
+    cx.set_sample(|| json!({"mode": "large", "family": format!("{:?}", family), "encoded_nodes": n_nodes, "bytes": bytes.len(), "first_bytes": hex(&bytes[..bytes.len().min(48)])}));
+    let decoded = decode_commit(family, &bytes).map_err(|e| format!("CommitNode::decode rejects the library's own encoding of a program with {} nodes ({} bytes, widest word {} bits): {}", n_nodes, bytes.len(), prog.nodes.iter().map(|n| if let Ir::Word(k, _) = n { 1usize << k } else { 0 }).max().unwrap_or(0), e))?;
+    if let Some(d) = diff_walks(&walk_commit(&commit), &walk_commit(&decoded)) {
+        return Err(format!("commit-time round trip of a program with {} nodes: {}", n_nodes, d));
+    }
+    if decoded.to_vec_without_witness() != bytes {
+        return Err(format!("re-encoding the decoded commit program with {} nodes gives other bytes", n_nodes));
+    }
+    // redemption time
+    let redeem = build_redeem(&prog, true, &HashMap::new()).map_err(|e| harness_error(format!("large program, pass 2: {:?}", e)))?;
+    let (pb, wb) = redeem.to_vec_with_witness();
+    let back = decode_redeem(family, &pb, &wb).map_err(|e| format!("RedeemNode::decode rejects the library's own encoding of a program with {} nodes ({} bytes): {}", n_nodes, pb.len(), e))?;
+    if let Some(d) = diff_walks(&walk_redeem(&redeem), &walk_redeem(&back)) {
+        return Err(format!("redemption-time round trip of a program with {} nodes: {}", n_nodes, d));
+    }
+    let (pb2, wb2) = back.to_vec_with_witness();
+    if pb2 != pb || wb2 != wb {
+        return Err(format!("re-encoding the decoded redeem program with {} nodes gives other bytes", n_nodes));
+    }
+    Ok(())
+}
+
 pub fn case(cx: &mut Case) -> CaseResult {
+    if cx.src.chance(2) {
+        return large_program(cx);
+    }
     let commit_time = cx.src.chance(100);
     if commit_time {
         cx.label("mode: commit time");
